@@ -112,7 +112,7 @@ def gen_case(rng, tier):
         for k in range(3):
             style = {"spaces": rng.choice([[0], [1], [0, 1, 2]]), "pow": rng.choice(["^", "**"]), "extra_parens": rng.choice([0.0, 0.1, 0.3])}
             e2 = e if k == 0 else commute(rng, e)
-            variants.append({"string": render(rng, e2, style), "ddt": rng.random() < 0.5})
+            variants.append({"string": render(rng, e2, style), "ddt": rng.random() < 0.5, "rename": rng.random() < 0.25})
         return {"expr": e, "env": {k: C.q2s(v) for k, v in env.items()}, "variants": variants, "value": C.q2s(val)}
     raise C.HarnessError("expression generator failed")
 
@@ -139,8 +139,14 @@ def impl_eval(case):
                     r["direct"] = f"raise:{type(e).__name__}:{str(e)[:80]}"
                 # (b) generated code of a one-equation operator
                 try:
-                    lhs = "d/dt * q_" if v["ddt"] else "q_'"
-                    op = OperatorTemplate(name="eop", equations=[f"{lhs} = {v['string']}"], variables=dict({"q_": "output(0.0)"}, **env), path=None)
+                    if v.get("rename"):
+                        # the operator is derived from a parent whose state variable is renamed by a template edit (the pattern of jansenrit.yaml)
+                        lhs = "d/dt * z9" if v["ddt"] else "z9'"
+                        parent = OperatorTemplate(name="eop_parent", equations=[f"{lhs} = {v['string']}"], variables=dict({"z9": "variable(0.0)"}, **env), path=None)
+                        op = parent.update_template(name="eop", equations={"replace": {"z9": "q_"}}, variables={"q_": "output(0.0)"})
+                    else:
+                        lhs = "d/dt * q_" if v["ddt"] else "q_'"
+                        op = OperatorTemplate(name="eop", equations=[f"{lhs} = {v['string']}"], variables=dict({"q_": "output(0.0)"}, **env), path=None)
                     c = CircuitTemplate(name="net", nodes={"p": NodeTemplate(name="n", operators=[op], path=None)}, edges=[], path=None)
                     func, args2, names, smap = c.get_run_func("ef", step_size=1e-3, vectorize=False, float_precision="float64", verbose=False, in_place=False, clear=True)
                     dy = np.asarray(func(0, np.zeros(1), np.zeros(1), *args2[3:]), dtype=float)
@@ -148,6 +154,44 @@ def impl_eval(case):
                 except Exception as e:
                     r["generated"] = f"raise:{type(e).__name__}:{str(e)[:80]}"
                 out.append(r)
+    return out
+
+
+# ------------------------------------------------------------------ reserved-name stream
+RESERVED_CANDIDATES = ["E", "I", "N", "O", "Q", "S", "pi", "oo", "zoo", "nan", "beta", "gamma", "Beta", "Gamma", "zeta", "y", "dy", "exp", "log", "sin", "cos", "tan", "tanh",
+                       "sqrt", "abs", "source_idx", "target_idx", "sigmoid", "absv", "maxi", "mini", "sign", "interp", "E1", "Ei", "Si", "Ci", "re", "im", "ff", "rf", "Li", "li"]
+
+
+def reserved_stream(names):
+    """a variable called `nm` is either rejected (PyRatesException) or means the declared value on both evaluation paths"""
+    from pyrates import OperatorTemplate, NodeTemplate, CircuitTemplate
+    from pyrates.backend import PyRatesException
+    from pyrates.backend.parser import ExpressionParser
+    from pyrates.backend.computegraph import ComputeGraph
+    out = {}
+    with M.Scratch():
+        with warnings.catch_warnings():
+            warnings.simplefilter("ignore")
+            for nm in names:
+                r = {}
+                expected = C.f2s(-0.5 / 2.0 + 3.0 * 0.25)
+                try:
+                    op = OperatorTemplate(name="rop", equations=[f"q_' = -q_/b2 + {nm}*a2"], variables={"q_": "output(0.5)", "b2": 2.0, "a2": 0.25, nm: 3.0}, path=None)
+                    c = CircuitTemplate(name="net", nodes={"p": NodeTemplate(name="n", operators=[op], path=None)}, edges=[], path=None)
+                    func, args2, names2, smap = c.get_run_func("rf_", step_size=1e-3, vectorize=False, float_precision="float64", verbose=False, in_place=False, clear=True)
+                    dy = np.asarray(func(0, np.array([0.5]), np.zeros(1), *args2[3:]), dtype=float)
+                    r["generated"] = C.f2s(dy[smap["p/rop/q_"]])
+                except PyRatesException as e:
+                    r["generated"] = "rejected"
+                except Exception as e:
+                    r["generated"] = f"raise:{type(e).__name__}:{str(e)[:80]}"
+                r["expected"] = expected
+                out[nm] = r
+                try:
+                    from pyrates import clear_frontend_caches
+                    clear_frontend_caches()
+                except Exception:
+                    pass
     return out
 
 
@@ -253,8 +297,8 @@ def check(tier, seed, replay=None):
     proof_ok, detail = C.prepare_lean(rep)
     rep.cov["rule"] = ("exact stream: random expression ASTs (depth 1-4, +, -, *, unary minus, integer powers; variables from a hostile pool: prefixes/suffixes of each other, x_v1, weight, "
                        "r_in0, in_edge_0; literals written as int / float / trailing dot / exponent form) x 3 renderings each (spacing, ^ vs **, redundant parentheses, commuted and "
-                       "re-associated operands, d/dt * q vs q') x 2 evaluation paths (eval_node on the parsed expression, generated function); float stream: 22 expressions over "
-                       "the registry functions and constants at random points (1e-9); index stream: 10 index-helper forms on a vector and a matrix.  distinct = distinct (AST, "
+                       "re-associated operands, d/dt * q vs q', 25% through a parent template whose state variable is renamed by a replace edit) x 2 evaluation paths (eval_node on the parsed expression, generated function); float stream: 22 expressions over "
+                       "the registry functions and constants at random points (1e-9); index stream: 10 index-helper forms on a vector and a matrix; R stream: a variable carrying each of 43 names that sympy or the registry pre-defines is rejected, fails loudly, or means its declared value.  distinct = distinct (AST, "
                        "environment); non-trivial = AST depth >= 2 and >= 2 distinct variables")
     if replay:
         cases = [json.load(open(replay))["case"]]
@@ -307,6 +351,18 @@ def check(tier, seed, replay=None):
             rep.violation("generated backend labels collide", real[0])
         elif lbad:
             rep.violation("C05: correspondence _generate_unique_label impl-vs-Lean-model broken (labels still distinct)", lbad[0], no_input=True, name="unproved")
+    rs = C.run_forked(reserved_stream, [RESERVED_CANDIDATES], timeout=900)[0] if not replay else {}
+    if "crash" in rs:
+        raise C.HarnessError("reserved-name stream crashed: " + str(rs)[:600])
+    rbad = []
+    for nm, r in rs.items():
+        rep.count("R-reserved-name", nm, nontrivial=True)
+        if r["generated"] == "rejected" or r["generated"].startswith("raise:") or r["generated"] == r["expected"]:
+            rep.validated()
+        else:
+            rbad.append({"variable_name": nm, "equation": f"q_' = -q_/b2 + {nm}*a2", "values": {"q_": 0.5, "b2": 2.0, "a2": 0.25, nm: 3.0}, "got": r["generated"], "expected": r["expected"]})
+    if rbad:
+        rep.violation(f"a variable named `{rbad[0]['variable_name']}` is accepted but does not mean its declared value in the generated code", {"reserved": rbad})
     fl = C.run_forked(float_stream, [seed])[0] if not replay else {"done": 0, "bad": []}
     ix = C.run_forked(index_stream, [0])[0] if not replay else {"done": 0, "bad": []}
     for nm, st in (("float", fl), ("index", ix)):
@@ -323,7 +379,7 @@ def check(tier, seed, replay=None):
         rep.violation(f"registry function/constant deviates from its NumPy meaning: {fl['bad'][0]['expr']}", {"float_stream": fl["bad"][:4]})
     if ix["bad"]:
         rep.violation(f"index helper deviates from NumPy indexing: {ix['bad'][0]['expr']}", {"index_stream": ix["bad"][:4]})
-    if not (bad or fl["bad"] or ix["bad"]) and not proof_ok:
+    if not (bad or fl["bad"] or ix["bad"] or rbad) and not proof_ok:
         why = {"proof_ok": proof_ok, "build_log_tail": detail["build_log_tail"], "forbidden": detail["forbidden"],
                "audit_failures": (detail["audit"] or {}).get("failures"), "broken": "theorems of PyRatesModel.Props.C05 (build/audit)"}
         rep.violation("C05 is no longer shown to hold: " + why["broken"], why, no_input=True, name="unproved")
